@@ -158,6 +158,9 @@ func (fe *FnEnc) callWithArgs(st *State, instr ssa.Instruction, common *ssa.Call
 		if rets == nil && sig.Results().Len() > 0 {
 			rets = fe.freshResults(st, sig, callee.Name())
 		}
+		if callee.Pkg == nil || !strings.HasPrefix(callee.Pkg.Pkg.Path(), "github.com/olareg/") {
+			fe.notOwnErrors(sig, rets)
+		}
 		fe.setResult(st, res, sig, rets)
 		fe.cutPointsAt(st, short, fe.callOrd[short], pos, true)
 		return
@@ -198,6 +201,8 @@ func (fe *FnEnc) callWithArgs(st *State, instr ssa.Instruction, common *ssa.Call
 		fe.havocComp(st, "alloc", sInt)
 		fe.havocPointees(st, callee, args, common.Args)
 		rets := fe.freshResults(st, sig, callee.Name())
+		fe.nonNilOnSuccess(name, sig, rets)
+		fe.notOwnErrors(sig, rets)
 		fe.setResult(st, res, sig, rets)
 		fe.cutPointsAt(st, short, fe.callOrd[short], pos, true)
 		return
@@ -456,7 +461,7 @@ func (fe *FnEnc) resolveModifiesAll(m string) map[string]string {
 	return out
 }
 
-var ghostCompSorts = map[string]string{"held": arrSort(sInt, sBool), "clock": sInt, "fault": sBool, "mutations": sInt, "blobReady": sBool, "truncated": sBool, "FLAGS": arrSort(sStr, sInt), "fswrites": sInt,
+var ghostCompSorts = map[string]string{"held": arrSort(sInt, sBool), "clock": sInt, "fault": sBool, "mutations": sInt, "blobReady": sBool, "truncated": sBool, "FLAGS": arrSort(sStr, sInt), "fswrites": sInt, "feeds": sInt, "MT": arrSort(sStr, sInt),
 	"HDR": arrSort(sInt, arrSort(sStr, sStr)), "M.ResponseWriter.status": arrSort(sInt, sInt), "M.BlobCreator.written": arrSort(sInt, sInt)}
 
 func (fe *FnEnc) safeResolve(env *Env, name string) (t types.Type) {
@@ -709,8 +714,12 @@ func (fe *FnEnc) callInvoke(st *State, instr ssa.Instruction, common *ssa.CallCo
 		if rets == nil && sig.Results().Len() > 0 {
 			rets = fe.freshResults(st, sig, mname)
 		}
+		fe.notOwnErrors(sig, rets)
 		fe.setResult(st, res, sig, rets)
 		return
+	}
+	if mname == "Write" || mname == "WriteString" || mname == "ReadFrom" {
+		bumpFeeds(fe, st)
 	}
 	if n, ok := derefNamed(iface); ok && n.Obj().Pkg() != nil && purePkgs[n.Obj().Pkg().Path()] || mname == "Error" {
 		fe.assumed["external call assumed not to modify contract-visible memory: "+full] = true
@@ -767,6 +776,7 @@ func (fe *FnEnc) applyIfaceContract(st *State, instr ssa.Instruction, cf *Contra
 	pre := st.clone()
 	envPre := mkEnv(pre, pre, nil)
 	fe.callOrd[fc.Key]++
+	fe.cutPointsAt(st, fc.Key, fe.callOrd[fc.Key], pos, false)
 	for i := range fc.Requires {
 		cl := &fc.Requires[i]
 		props := cl.Props
@@ -783,6 +793,7 @@ func (fe *FnEnc) applyIfaceContract(st *State, instr ssa.Instruction, cf *Contra
 		cl := &fc.Ensures[i]
 		fe.assumeClause(st, fmt.Sprintf("call.%s@%d.%s", fc.Key, fe.callOrd[fc.Key], cl.Label), cl.E, env)
 	}
+	fe.cutPointsAt(st, fc.Key, fe.callOrd[fc.Key], pos, true)
 	fe.assumed["interface contract (assumed for callers): "+fc.Key] = true
 	fe.setResult(st, res, sig, rets)
 }
@@ -1168,7 +1179,6 @@ func closureCtor(fn *ssa.Function) (*ssa.Function, []int) {
 	return mc.Fn.(*ssa.Function), idx
 }
 
-
 // fsReadOnly lists the functions of package os (and methods of *os.File, os.FileInfo, os.DirEntry) that cannot
 // create, modify or delete anything; every other function of the packages in fsPkgs counts as a write.
 var fsReadOnly = map[string]bool{
@@ -1228,7 +1238,6 @@ func (fe *FnEnc) goPreconditions(st *State, x *ssa.Go, fc *FuncContract, callee 
 	}
 }
 
-
 // fsPathArgs: which arguments of the functions of package os are paths.
 var fsPathArgs = map[string][]int{
 	"os.Stat": {0}, "os.Lstat": {0}, "os.Open": {0}, "os.ReadFile": {0}, "os.ReadDir": {0}, "os.MkdirAll": {0}, "os.Mkdir": {0},
@@ -1278,6 +1287,52 @@ func (fe *FnEnc) fsPathObligations(st *State, callee *ssa.Function, args []RV, p
 				}
 				o.Uses = resolveUses(cl.Uses, ord0, "")
 			}
+		}
+	}
+}
+
+
+// stdlibNonNil: standard library functions whose first result is non-nil whenever the error result is nil
+// (or unconditionally, for functions without error result): documented behaviour, assumed.
+var stdlibNonNil = map[string]bool{
+	"os.Stat": true, "os.Lstat": true, "os.Open": true, "os.Create": true, "os.OpenFile": true, "(*os.File).Stat": true,
+	"time.NewTicker": true, "time.NewTimer": true, "time.AfterFunc": true, "log/slog.New": true, "log/slog.Default": true,
+	"bytes.NewReader": true, "bytes.NewBuffer": true, "strings.NewReader": true, "context.Background": true, "context.TODO": true,
+	"net/http.NewRequest": true, "(io/fs.DirEntry).Info": true, "(*log/slog.Logger).With": true, "regexp.MustCompile": true,
+}
+
+func (fe *FnEnc) nonNilOnSuccess(name string, sig *types.Signature, rets []RV) {
+	if fe.dry || !stdlibNonNil[name] || len(rets) == 0 {
+		return
+	}
+	fe.assumed["stdlib: "+name+" returns a non-nil first result on success"] = true
+	r := rets[0].T
+	var nonNil string
+	switch r.Sort {
+	case sInt:
+		nonNil = "(not (= " + r.S + " 0))"
+	case sIface:
+		nonNil = "(not (= (i_typ " + r.S + ") 0))"
+	default:
+		return
+	}
+	if len(rets) >= 2 && rets[len(rets)-1].T.Sort == sIface {
+		fe.emit("(assert (=> (= " + rets[len(rets)-1].T.S + " (mkIface 0 0)) " + nonNil + "))")
+		return
+	}
+	fe.emit("(assert " + nonNil + ")")
+}
+
+
+// notOwnErrors: an error returned by a function outside the module is none of the module's sentinel errors.
+func (fe *FnEnc) notOwnErrors(sig *types.Signature, rets []RV) {
+	if fe.dry {
+		return
+	}
+	for i, r := range rets {
+		if i < sig.Results().Len() && r.T.Sort == sIface && sig.Results().At(i).Type().String() == "error" {
+			fe.declFun("own.err", []string{sIface}, sBool)
+			fe.emit("(assert (not (own.err " + r.T.S + ")))")
 		}
 	}
 }
